@@ -101,6 +101,10 @@ def run(rep: Report, tier: str, seed: int) -> None:
         "class-name-suffix": ({"sx2/__init__.py": "from ._m import Bar\n", "sx2/_m.py": "class Bar:\n    def b(self) -> int:\n        return 1\n\n\nclass FooBar:\n    def secretx2(self) -> int:\n        return 1\n",
                                "sx2/pub.py": "def p() -> int:\n    return 1\n"},
                               ["secretx2", "FooBar"], ["vpkg/sx2/_m/FooBar"]),
+        # private classes (by name / by module) used as TYPES in another module: a reference is not a declaration
+        "private-class-used-as-type-elsewhere": ({"sx4/__init__.py": "", "sx4/_engine.py": "class Gearbox:\n    def gsecret(self) -> int:\n        return 1\n\n\nclass _Motor:\n    def msecret(self) -> int:\n        return 1\n",
+                                                  "sx4/car.py": "from ._engine import Gearbox, _Motor\n\n\nclass Car:\n    g: Gearbox\n\n    def start(self, m: _Motor) -> Gearbox:\n        return self.g\n\n\nclass Truck(Gearbox):\n    pass\n"},
+                                                 ["Gearbox", "_Motor", "gsecret", "msecret"], ["vpkg/sx4/_engine/Gearbox", "vpkg/sx4/_engine/_Motor"]),
         "function-name-suffix": ({"sx3/__init__.py": "from ._m import run\n", "sx3/_m.py": "def run() -> int:\n    return 1\n\n\ndef dry_run() -> int:\n    return 1\n\n\ndef rerun() -> int:\n    return 1\n",
                                   "sx3/pub.py": "def p() -> int:\n    return 1\n"},
                                  ["dry_run", "rerun"], ["vpkg/sx3/_m/dry_run", "vpkg/sx3/_m/rerun"]),
